@@ -78,6 +78,8 @@ def _defaults():
     D += [("tmpl", "{B}-d", {}), ("tmpl", "lit", {})]
     # string defaults whose only braces are escaped, alone and next to a reference
     D += [("tmpl", "\\{raw\\}", {}), ("tmpl", "\\{B\\}={B}", {})]
+    # string defaults that name a list-indexed key / a section member / both (resolved against the same options)
+    D += [("tmpl", "{R.L.0}.bak", {}), ("tmpl", "{R.X}:{R.L.1.Y}", {})]
     D += [("opt", "B"), ("opt", "B", ("opt", "C")), ("opt", "B", ("opt", "C", ("val", 9)))]
     D += [("ds", "dflt", {"params": [("opt", "B")]})]
     D += ["factory"]
@@ -378,6 +380,8 @@ def run_lookup(key, di, res, only=None):
             extra = [{}]
             if dom is not None and dom[0] == "term":
                 extra = [{}, {"T": 7}]
+            if isinstance(default, tuple) and default[0] == "tmpl" and "{R." in default[1]:
+                extra = [dict(a, **b) for a in extra for b in ({}, {"R": {"L": ["a", {"Y": "b"}], "X": 0}}, {"R": {"L": ["{R.X}"], "X": None}})]
             for ex in extra:
                 oo = copy.deepcopy(o)
                 oo.update(ex)
